@@ -41,7 +41,7 @@ ASSUMPTIONS = [
     "nothing is asserted about b's variables (b is a plain vector) or about result classes",
 ]
 
-DTYPES = ["int", "int32", "int64", "float", "float32"]
+DTYPES = ["int", "int32", "int64", "float", "float32", "int16", "int8", "uint8", "uint16", "uint32", "uint64"]
 STR_IDS = ["", "a", "b", "c", "x", "y", "å", "€uro", "名", "a b", " ", "0", "1", "2", "-1", "A", "a1", "Ω"]
 
 
@@ -66,7 +66,8 @@ def _key(j):
 
 
 def _dtype(np, name):
-    return {"int": int, "int32": np.int32, "int64": np.int64, "float": float, "float32": np.float32}[name]
+    return {"int": int, "int32": np.int32, "int64": np.int64, "float": float, "float32": np.float32, "int16": np.int16, "int8": np.int8,
+            "uint8": np.uint8, "uint16": np.uint16, "uint32": np.uint32, "uint64": np.uint64}[name]
 
 
 def _default_fn(spec):
@@ -127,12 +128,20 @@ def check_construct(case, ev):
     values = {}
     for k, v in case["vals"]:
         values[_id(k)] = v
-    dt = _dtype(np, case["dtype"])
-    is_int = case["dtype"].startswith("int")
-    kw = {"dtype": dt}
+    dname = case["dtype"]
     ofn = None
+    kw = {}
     if case.get("default") is not None:
         kw["default_value"], ofn = _default_fn(case["default"])
+    if dname in ("int16", "int8", "uint8", "uint16", "uint32", "uint64"):
+        # narrow / unsigned integer types only when every value that must appear fits them
+        info = np.iinfo(_dtype(np, dname))
+        must = [values[_id(vid)] if _id(vid) in values else (ofn(lo, hi) if ofn is not None else lo) for vid, lo, hi in cols]
+        if not all(isinstance(x, int) and info.min <= x <= info.max for x in must):
+            dname = "int64"
+    dt = _dtype(np, dname)
+    is_int = dname.startswith(("int", "uint"))
+    kw["dtype"] = dt
     res = call(obj.construct, dict(values), what="construct", **kw)
     arr = np.asarray(res)
     if tuple(arr.shape) != (len(cols),):
@@ -178,7 +187,7 @@ def check_construct(case, ev):
     known = {_key(c[0]) for c in cols}
     n_unknown = sum(1 for k, _ in case["vals"] if _key(k) not in known)
     n_nonbool = len(exp_i) - (0 if host != "poly" else 1)
-    cls = [f"host={host}", f"dtype={case['dtype']}",
+    cls = [f"host={host}", f"dtype={dname}",
            "default=" + (case["default"]["kind"] if case.get("default") else "none")]
     for kind, t in (("str", str), ("int", int), ("tuple", list)):
         if any(isinstance(c[0], t) for c in vars_):
